@@ -210,13 +210,18 @@ def execute(case, chooser):
     import random
     if case["mode"] == "control":
         return execute_control(case, chooser)
+    return run_equiv(case, chooser, TRANSPORTS)
+
+
+def run_equiv(case, chooser, transports, inspect=None):
+    import random
     V = []
     transcripts = {}
     digest = []
     total = {"sim_time": 0.0, "steps": 0, "switches": 0}
     stats = {}
     krng = random.Random(case["knob_seed"]) if case["knob_seed"] else None
-    for t in TRANSPORTS:
+    for t in transports:
         sub = build(case, t, krng)
         res = gwsim.run_case(sub, chooser, max_steps=400_000)
         gwsim.check_harness(res)
@@ -228,6 +233,8 @@ def execute(case, chooser):
             x["rule"] = "reference-model-mismatch"
             V.append(x)
         transcripts[t] = transcript(sub, res, hist)
+        if inspect is not None:
+            V += inspect(t, sub, res, hist)
         digest.append(res.sched.digest())
         total["sim_time"] += res.sched.now
         total["steps"] += res.sched.step
@@ -235,8 +242,8 @@ def execute(case, chooser):
         for k_, n in res.sched.stats.items():
             stats[k_] = stats.get(k_, 0) + n
         del res, hist
-    ref = transcripts["popen"]
-    for t in TRANSPORTS[1:]:
+    ref = transcripts[transports[0]]
+    for t in transports[1:]:
         if transcripts[t] != ref:
             diff = None
             for a, b in zip(ref, transcripts[t]):
